@@ -455,6 +455,9 @@ struct Filename {
     full: OsString,
     // the "display" name, i.e. the name that appears in an /include directive or an error message
     display: String,
+    // the name of the /include directive in the main file through which this file was loaded.
+    // For a nested include this is the name used by the outermost include directive.
+    incname: String,
 }
 
 impl Filename {
@@ -462,6 +465,7 @@ impl Filename {
         Self {
             full,
             display: display.to_string(),
+            incname: display.to_string(),
         }
     }
 }
@@ -471,6 +475,7 @@ impl From<&str> for Filename {
         Self {
             full: OsString::from(value),
             display: String::from(value),
+            incname: String::from(value),
         }
     }
 }
@@ -479,6 +484,7 @@ impl From<&Path> for Filename {
     fn from(value: &Path) -> Self {
         Self {
             display: value.to_string_lossy().to_string(),
+            incname: value.to_string_lossy().to_string(),
             full: OsString::from(value),
         }
     }
@@ -488,6 +494,7 @@ impl From<OsString> for Filename {
     fn from(value: OsString) -> Self {
         Self {
             display: value.to_string_lossy().to_string(),
+            incname: value.to_string_lossy().to_string(),
             full: value,
         }
     }
